@@ -38,8 +38,8 @@ Fixpoint read_varint (fuel : nat) (shift acc : N) (bs : list N) : option (N * li
 
 Definition set_err (d : dec) : dec := mkdec (d_rest d) (d_rle d) (d_rem d) (d_val d) (d_buf d) false.
 
-(** start_new_run: returns the new state and the C return value.  The C recursion on empty runs
-    consumes at least one byte per call; [fuel] bounds it by the input length. *)
+(** start_new_run: returns the new state and the C return value.  The loop over empty runs
+    ("goto again") consumes at least one byte per round; [fuel] bounds it by the input length. *)
 Fixpoint start_new_run (fuel : nat) (w : nat) (d : dec) : dec * bool :=
   match fuel with
   | O => (d, false)
@@ -52,11 +52,13 @@ Fixpoint start_new_run (fuel : nat) (w : nat) (d : dec) : dec * bool :=
       | Some (header, tl) =>
         if N.land header 1 =? 0 then
           let n := N.shiftr header 1 in
-          if n =? 0 then start_new_run f w (mkdec tl true 0 (d_val d) (d_buf d) (d_ok d))
-          else if Nat.ltb (length tl) (vbytes w)
-               then (mkdec tl true n (d_val d) (d_buf d) false, false)
-               else (mkdec (skipn (vbytes w) tl) true n
-                           (N.land (le_val (firstn (vbytes w) tl)) (value_mask w)) (d_buf d) (d_ok d), true)
+          if Nat.ltb (length tl) (vbytes w)
+          then (mkdec tl true n (d_val d) (d_buf d) false, false)
+          else
+            let d1 := mkdec (skipn (vbytes w) tl) true n
+                            (N.land (le_val (firstn (vbytes w) tl)) (value_mask w)) (d_buf d) (d_ok d) in
+            if n =? 0 then start_new_run f w d1      (* empty run: its value bytes are consumed; "goto again" *)
+            else (d1, true)
         else
           let groups := N.shiftr header 1 in
           if groups =? 0 then start_new_run f w (mkdec tl false 0 (d_val d) (d_buf d) (d_ok d))
@@ -78,20 +80,25 @@ Definition fill (w : nat) (d : dec) : dec * bool :=
 Definition nmin (want : nat) (avail : N) : nat :=
   if N.of_nat want <=? avail then want else N.to_nat avail.
 
-(** one pass of the body of get_batch's loops: delivers at least one value or stops *)
-Definition batch_iter (w : nat) (d : dec) (want : nat) : list N * dec * bool :=
-  let '(d1, ok) := if d_rem d =? 0 then start_new_run (S (length (d_rest d))) w d else (d, true) in
-  if negb ok then ([], d1, false)
-  else if d_rle d1 then
+(** copy out of the bit-pack buffer: min(count - read, run_remaining, buffered) values *)
+Definition lit_take (d2 : dec) (want : nat) : list N * dec * bool :=
+  let k := Nat.min (nmin want (d_rem d2)) (length (d_buf d2)) in
+  (firstn k (d_buf d2),
+   mkdec (d_rest d2) false (d_rem d2 - N.of_nat k) (d_val d2) (skipn k (d_buf d2)) (d_ok d2), true).
+
+(** inside a run with run_remaining > 0 *)
+Definition run_iter (w : nat) (d1 : dec) (want : nat) : list N * dec * bool :=
+  if d_rle d1 then
     let k := nmin want (d_rem d1) in
     (repeat (d_val d1) k, mkdec (d_rest d1) true (d_rem d1 - N.of_nat k) (d_val d1) (d_buf d1) (d_ok d1), true)
   else
     let '(d2, ok2) := match d_buf d1 with [] => fill w d1 | _ => (d1, true) end in
-    if negb ok2 then ([], d2, false)
-    else
-      let k := Nat.min (nmin want (d_rem d2)) (length (d_buf d2)) in
-      (firstn k (d_buf d2),
-       mkdec (d_rest d2) false (d_rem d2 - N.of_nat k) (d_val d2) (skipn k (d_buf d2)) (d_ok d2), true).
+    if negb ok2 then ([], d2, false) else lit_take d2 want.
+
+(** one pass of the body of get_batch's loops: delivers at least one value or stops *)
+Definition batch_iter (w : nat) (d : dec) (want : nat) : list N * dec * bool :=
+  let '(d1, ok) := if d_rem d =? 0 then start_new_run (S (length (d_rest d))) w d else (d, true) in
+  if negb ok then ([], d1, false) else run_iter w d1 want.
 
 (** carquet_rle_decoder_get_batch(dec, output, count) *)
 Fixpoint get_batch (fuel : nat) (w : nat) (d : dec) (want : nat) : list N * dec :=
